@@ -17,6 +17,7 @@ from fractions import Fraction as Fr
 from unittest import mock
 
 import common
+import c10_poly
 import geomgen
 from common import q
 from geomgen import PF, Node, Gen, c, dy, env_tokens
@@ -945,6 +946,7 @@ def run(ctx, rep, cases=None):
                 "contained by construction), intersections, products (constant and dependent), translations, rotations and reflections, "
                 "set_volume overrides; 0-5 parameter rows; partial evaluation; density sampling (random + grid) for at most one row. "
                 "non-trivial = an operation node, a parameter dependence or a density; distinct = distinct (expression, rows, sigma, density)")
+    poly = cases is None
     if cases is None:
         cases = fixed_cases() + [make_case(ctx, i) for i in range(ctx.scale(1200, 12000))]
     lines, spans = [], []
@@ -972,12 +974,18 @@ def run(ctx, rep, cases=None):
         rep.case(key, nontrivial, sample=dict(expression=vtokens(node), params=cs["envs"][:2], sigma=cs.get("sigma"), density=cs.get("density"),
                                               model=rs[0][1], verdict="ok" if (nf, nd) == (len(rep.failures), len(rep.disagreements)) else "differs"),
                  kind=cs["mode"])
+    if poly:
+        # ShapelyPolygon / TrimeshPolyhedron: oracles only (opaque geometry kernels, not in the Lean model)
+        c10_poly.run_poly(ctx, rep)
 
 
 def replay(ctx, obj):
     rep = common.Report(ctx)
     lean = common.lean_check("C10")
     inp = (obj.get("failing_input") or obj.get("first"))["input"]
+    if "poly" in inp:
+        c10_poly.check(dict(inp, id=0), rep)
+        return common.finish(ctx, rep, lean)
     case = dict(id=0, mode="replay", dom=inp["dom"], params=inp["params"], envs=inp["envs"], sigma=inp.get("sigma"),
                 density=inp.get("density"))
     run(ctx, rep, [case])
